@@ -30,7 +30,7 @@ ASSUMPTIONS = [
 ]
 REQUIRED_COUNTERS = {
     "minkowski": 50, "msm": 50, "fourier": 50, "gsl": 50, "likelihood": 50, "moments18": 50,
-    "with_filters": 40, "with_weights": 40, "ensemble_ge2": 40, "second_call_same_object": 150,
+    "integer_typed_data": 40, "with_filters": 40, "with_weights": 40, "ensemble_ge2": 40, "second_call_same_object": 150,
 }
 SHARDS = {"quick": 16, "thorough": 16}
 KINDS = ["minkowski", "msm", "fourier", "gsl", "likelihood", "moments18"]
@@ -117,8 +117,11 @@ def run_case(desc, ctx):
         D = int(rng.integers(1, 5))
         E = int(rng.integers(1, 5))
         d = G.gen_loss_desc(rng, kind, D, N)
-        real, sim, kinds = G.gen_data(rng, N, D, E, d["filters"])
-        wit = {"loss": d, "N": N, "D": D, "E": E, "shapes": kinds, "real": real, "sim": sim}
+        int_data = rng.random() < 0.15
+        real, sim, kinds = G.gen_data(rng, N, D, E, d["filters"], int_data=int_data)
+        if int_data:
+            c["integer_typed_data"] = c.get("integer_typed_data", 0) + 1
+        wit = {"loss": d, "N": N, "D": D, "E": E, "shapes": kinds, "real": real, "sim": sim, "dtype": str(sim.dtype)}
         flags = {}
         try:
             ref, per = G.reference_value(d, sim, real, flags)
